@@ -884,7 +884,7 @@ pub struct Scale {
     pub cap: usize,
 }
 
-pub const G7_FAMILIES: usize = 24;
+pub const G7_FAMILIES: usize = 29;
 
 /// Adversarial scaling family `fam` at size about `n` bytes.
 pub fn g7(fam: usize, n: usize) -> Scale {
@@ -1113,6 +1113,57 @@ pub fn g7(fam: usize, n: usize) -> Scale {
             b = req.to_vec();
             b.extend_from_slice(b"Name: ");
             b.extend(rep(b"v", n));
+            entry = Entry::R1;
+            cfg = 0;
+            cap = 4;
+        }
+        23 => {
+            name = "fold_ws_only_lines_after_value";
+            b = resp.to_vec();
+            b.extend_from_slice(b"F: a\r\n");
+            b.extend(rep(b" \r\n", n));
+            b.extend_from_slice(b"\r\n");
+            entry = Entry::S2;
+            cfg = FOLD;
+            cap = 4;
+        }
+        24 => {
+            name = "fold_tab_lines_lf_only";
+            b = resp.to_vec();
+            b.extend_from_slice(b"F: a\n");
+            b.extend(rep(b"\t \n", n));
+            b.extend_from_slice(b"\n");
+            entry = Entry::S4;
+            cfg = FOLD | SBF;
+            cap = 4;
+        }
+        25 => {
+            name = "many_headers_each_folded";
+            b = resp.to_vec();
+            b.extend(rep(b"H: v\r\n \r\n\tw\r\n", n));
+            b.extend_from_slice(b"\r\n");
+            entry = Entry::S2;
+            cfg = FOLD;
+            cap = n / 16 + 2;
+        }
+        26 => {
+            name = "ignored_lines_with_long_tails";
+            b = resp.to_vec();
+            let mut unit = b"Bad Name: ".to_vec();
+            unit.extend(std::iter::repeat(b'x').take(200));
+            unit.extend_from_slice(b"\r\n");
+            b.extend(rep(&unit, n));
+            b.extend_from_slice(b"\r\n");
+            entry = Entry::S2;
+            cfg = IGNRESP | SA;
+            cap = 4;
+        }
+        27 => {
+            name = "value_obs_text_then_ctl_every_8";
+            b = req.to_vec();
+            b.extend_from_slice(b"Name: v");
+            b.extend(rep(b"aaaaaa\xff\t", n));
+            b.extend_from_slice(b"w\r\n\r\n");
             entry = Entry::R1;
             cfg = 0;
             cap = 4;
